@@ -118,3 +118,51 @@ func mulFixnums(x, y slip.Fixnum) slip.Object {
 	}
 	return product
 }
+
+// normalizeForCompare normalizes two numbers for a comparison. Rounding a
+// rational to the type of a float it is compared to, as
+// slip.NormalizeNumber does, can make two different numbers the same. Every
+// finite float is a rational though so the float is made a ratio instead
+// and the comparison is exact.
+func normalizeForCompare(v0, v1 slip.Object) (n0, n1 slip.Object) {
+	if _, ok := v0.(slip.Rational); ok {
+		if !isSmallFixnum(v0) {
+			v1 = floatToRatio(v1)
+		}
+	} else if _, ok = v1.(slip.Rational); ok && !isSmallFixnum(v1) {
+		v0 = floatToRatio(v0)
+	}
+	return normalizeNumber(v0, v1)
+}
+
+// isSmallFixnum returns true if v is a fixnum of no more than 24 bits. Those
+// are exact in every float type so a comparison as floats is exact as well
+// and there is no need for the slower comparison as ratios.
+func isSmallFixnum(v slip.Object) bool {
+	num, ok := v.(slip.Fixnum)
+
+	return ok && -(1<<24) <= num && num <= 1<<24
+}
+
+// floatToRatio returns the ratio with the exact value of a finite
+// single-float, double-float or long-float. An infinity, a NaN and any other
+// value is returned as is.
+func floatToRatio(v slip.Object) slip.Object {
+	var z big.Rat
+	switch tv := v.(type) {
+	case slip.SingleFloat:
+		if z.SetFloat64(float64(tv)) != nil {
+			v = (*slip.Ratio)(&z)
+		}
+	case slip.DoubleFloat:
+		if z.SetFloat64(float64(tv)) != nil {
+			v = (*slip.Ratio)(&z)
+		}
+	case *slip.LongFloat:
+		if !(*big.Float)(tv).IsInf() {
+			_, _ = (*big.Float)(tv).Rat(&z)
+			v = (*slip.Ratio)(&z)
+		}
+	}
+	return v
+}
